@@ -83,6 +83,54 @@ def derivation(f, expr, depth=0):
     return U(base), names, calls
 
 
+def receiver_sources(f, name_node, depth=0):
+    """A name bound by a for loop / comprehension over a literal collection
+    of names (directly, through a local holding that literal, or through
+    zip()) stands for each of those names: -> the Name nodes it may denote
+    ([name_node] itself when it is an ordinary local)."""
+    if depth > 3 or not isinstance(name_node, ast.Name):
+        return [name_node]
+    nm = name_node.id
+
+    def literal_names(it, index=None):
+        if isinstance(it, ast.Name):
+            ds = [n for n in walk_no_nested(f.node)
+                  if isinstance(n, ast.Assign) and len(n.targets) == 1 and
+                  isinstance(n.targets[0], ast.Name) and
+                  n.targets[0].id == it.id]
+            if len(ds) == 1:
+                return literal_names(ds[0].value, index)
+            return None
+        if isinstance(it, (ast.Tuple, ast.List)) and it.elts and all(
+                isinstance(e, ast.Name) for e in it.elts):
+            return list(it.elts)
+        return None
+
+    for n in ast.walk(f.node):
+        gens = []
+        if isinstance(n, ast.For):
+            gens = [(n.target, n.iter)]
+        for g in getattr(n, "generators", ()):
+            gens.append((g.target, g.iter))
+        for target, it in gens:
+            # which position of the target is our name?
+            if isinstance(target, ast.Name) and target.id == nm:
+                srcs = literal_names(it)
+                if srcs:
+                    return [x for s_ in srcs
+                            for x in receiver_sources(f, s_, depth + 1)]
+            elif isinstance(target, (ast.Tuple, ast.List)):
+                for i, e in enumerate(target.elts):
+                    if isinstance(e, ast.Name) and e.id == nm and \
+                            isinstance(it, ast.Call) and U(it.func) == "zip" \
+                            and i < len(it.args):
+                        srcs = literal_names(it.args[i])
+                        if srcs:
+                            return [x for s_ in srcs for x in
+                                    receiver_sources(f, s_, depth + 1)]
+    return [name_node]
+
+
 # ------------------------------------------------------------------- R15
 def canonical_methods(ctx):
     """TimePoint methods all of whose returns are 24:00-free: `self` only
@@ -182,9 +230,13 @@ def r15_lex_norm(ctx):
                       "found - re-confirm by reading" % f.qual)
             continue
         done = set()
+        expanded = []
         for s_ in sinks:
-            var = s_.func.value.id
-            root, meths, calls = derivation(f, s_.func.value)
+            for src in receiver_sources(f, s_.func.value):
+                expanded.append((s_, src))
+        for s_, src in expanded:
+            var = src.id
+            root, meths, calls = derivation(f, src)
             k = (var, root, tuple(meths))
             if k in done:
                 continue
@@ -340,35 +392,36 @@ def r14_zone_pair(ctx):
                     n.func, ast.Attribute) and n.func.attr in KEY_GETTERS
                     and isinstance(n.func.value, ast.Name)):
                 continue
-            var = n.func.value.id
-            root, meths, calls = derivation(f, n.func.value)
-            if (var, root) in done:
-                continue
-            done.add((var, root))
-            key = ctx.fkey(f, None, "rezoned:%s<-%s" % (var, root))
-            if fname == "__hash__":
+            for src in receiver_sources(f, n.func.value):
+                var = src.id
+                root, meths, calls = derivation(f, src)
+                if (var, root) in done:
+                    continue
+                done.add((var, root))
+                key = ctx.fkey(f, None, "rezoned:%s<-%s" % (var, root))
+                if fname == "__hash__":
+                    rep.anchor(rule, "re-zoned operands")
+                    rep.check("to_utc" in meths, rule, key, f.loc(n),
+                              "hash key is read from the UTC form",
+                              "__hash__ reads date/time fields of `%s` (from %s "
+                              "via %s) without converting to UTC first: equal "
+                              "instants in different offsets hash differently" %
+                              (var, root, ".".join(meths) or "-"), props)
+                    continue
+                if root == selfn:
+                    continue
                 rep.anchor(rule, "re-zoned operands")
-                rep.check("to_utc" in meths, rule, key, f.loc(n),
-                          "hash key is read from the UTC form",
-                          "__hash__ reads date/time fields of `%s` (from %s "
-                          "via %s) without converting to UTC first: equal "
-                          "instants in different offsets hash differently" %
-                          (var, root, ".".join(meths) or "-"), props)
-                continue
-            if root == selfn:
-                continue
-            rep.anchor(rule, "re-zoned operands")
-            conv = [c for m, c in zip(meths, calls) if m == "to_time_zone"]
-            ok = bool(conv) and all(
-                c.args and U(c.args[0]) == "%s._time_zone" % selfn
-                for c in conv)
-            rep.check(ok, rule, key, f.loc(n),
-                      "the other operand is re-expressed in the receiver's "
-                      "zone before its fields are read",
-                      "%s reads date/time fields of `%s` (from %s via %s) "
-                      "without first converting it to self._time_zone: "
-                      "fields of different offsets are compared/subtracted" %
-                      (f.qual, var, root, ".".join(meths) or "-"), props)
+                conv = [c for m, c in zip(meths, calls) if m == "to_time_zone"]
+                ok = bool(conv) and all(
+                    c.args and U(c.args[0]) == "%s._time_zone" % selfn
+                    for c in conv)
+                rep.check(ok, rule, key, f.loc(n),
+                          "the other operand is re-expressed in the receiver's "
+                          "zone before its fields are read",
+                          "%s reads date/time fields of `%s` (from %s via %s) "
+                          "without first converting it to self._time_zone: "
+                          "fields of different offsets are compared/subtracted" %
+                          (f.qual, var, root, ".".join(meths) or "-"), props)
     # dumper: conversion to the literal zone precedes the property reads
     df = ctx.try_func("dumpers.TimePointDumper._dump_expression_with_properties")
     if df is not None:
